@@ -228,7 +228,7 @@ func genC01(g *Rng, tier string, emit func(Op)) {
 					if a := cc.cred.Attributes[i]; a.BitLen() > int(pk.Params.Lm) && !toy {
 						t2 := cloneTree(tree)
 						t2.(T)["a_disclosed"].(T)[strconv.Itoa(i)] = I(new(big.Int).Neg(a))
-						emit(verifyDOp(kp.id, t2, ctx, nonce, false, "negated-oversized-disclosed", "reject").with("direct", true).with("nomodel", true).with("fkey", "C01/negated-oversized-disclosed"))
+						emit(verifyDOp(kp.id, t2, ctx, nonce, false, "negated-oversized-disclosed", "reject").with("direct", true).with("fkey", "C01/negated-oversized-disclosed"))
 					}
 				}
 				// in-memory proofs (no wire format): responses shifted by -k*ord are negative but still
